@@ -1,6 +1,6 @@
 (* C05 — a command's response stream is delimited by its own tagged completion.
    rs_step / stream_poll: the model of ResponseStream::poll_next (Client.v). *)
-From TI Require Import Bytes Grammar Nom Interp Natives Client ClientProofs.
+From TI Require Import Bytes Grammar Nom Interp Natives Tags Builders Client ClientProofs SessionProofs.
 
 (* while receiving, the stream hands through exactly what the framed connection delivers (order kept,
    nothing dropped or invented), and it finishes on a frame iff that frame is a tagged completion whose
@@ -57,3 +57,35 @@ Check c05_write_pending_from_transport : forall fuel wbuf t wbuf' t', (length wb
   flush_loop fuel wbuf t = (wbuf', t', WPending) ->
   (exists used, io_wr t = used ++ WNotReady :: io_wr t') \/ (exists fl', io_fl t = FNotReady :: fl' /\ io_fl t' = fl').
 Print Assumptions c05_write_pending_from_transport.
+
+(* over a whole session -- any commands, any numbers of polls per stream, any abandonment points, any read / write /
+   flush schedule: the frames handed to the streams, in order, are exactly the frames that n successive polls of the
+   framed read side (fr_trace; C04 says what those are for a given byte stream) yield from the session's initial
+   read state, and the read side is left in the state after those n polls.  Exactly once, in order, and every
+   later byte is left for the next command. *)
+Theorem c05_session_exactly_once : forall ops c c' started outs, session ops c = (c', started, outs) ->
+  exists n os, fr_trace n (c_rf c) (io_rd (c_io c)) = (os, c_rf c', io_rd (c_io c')) /\
+               frames_of (List.concat outs) = frames_of os.
+Proof. exact session_exactly_once_lemma. Qed.
+Check c05_session_exactly_once : forall ops c c' started outs, session ops c = (c', started, outs) ->
+  exists n os, fr_trace n (c_rf c) (io_rd (c_io c)) = (os, c_rf c', io_rd (c_io c')) /\
+               frames_of (List.concat outs) = frames_of os.
+Print Assumptions c05_session_exactly_once.
+
+(* the outputs of a stream polled any number of times from its creation: other items, then at most once its own
+   tagged completion, then at most one None and nothing behind it; None never comes before the own completion *)
+Theorem c05_stream_delimited : forall n c args c1 s0 c' s' os, call c args = Some (c1, s0) -> polls n c1 s0 = (c', s', os) ->
+  Delim (s_tag s0) false os.
+Proof. exact stream_delimited_lemma. Qed.
+Check c05_stream_delimited : forall n c args c1 s0 c' s' os, call c args = Some (c1, s0) -> polls n c1 s0 = (c', s', os) ->
+  Delim (s_tag s0) false os.
+Print Assumptions c05_stream_delimited.
+
+Theorem c05_delimited_in_words : forall tag os, Delim tag false os ->
+  (forall pre o post, os = pre ++ o :: post -> own tag o -> post = [] \/ post = [PNone]) /\
+  (forall pre post, os = pre ++ PNone :: post -> post = [] /\ exists pre' o, pre = pre' ++ [o] /\ own tag o).
+Proof. exact Delim_shape. Qed.
+Check c05_delimited_in_words : forall tag os, Delim tag false os ->
+  (forall pre o post, os = pre ++ o :: post -> own tag o -> post = [] \/ post = [PNone]) /\
+  (forall pre post, os = pre ++ PNone :: post -> post = [] /\ exists pre' o, pre = pre' ++ [o] /\ own tag o).
+Print Assumptions c05_delimited_in_words.
